@@ -41,10 +41,17 @@ XPos == ntok + 1
 
 \* --- what the rendered template asks for (generator heuristic, not an oracle)
 GenAutos(t) == Cardinality({j \in 1..Len(t) : t[j] = "{" /\ At(t, j + 1) \in {"}", ":", "!", ".", "["}})
-GenIdx(t) == {DigitVal(t[j + 1]) + 1 : j \in {i \in 1..Len(t) : t[i] = "{" /\ At(t, i + 1) \in DigitCh}}
+\* explicit indices: a run of one or two ASCII digits right after "{" (longer runs -- the huge indices -- and
+\* the lexical edge forms " 0", "+0", ... ask for no positional argument: they get 0 or 1)
+GenIdx(t) == {DigitsVal(SubSeq(t, j + 1, RunEnd(t, j + 1, DigitCh) - 1)) + 1 :
+                j \in {i \in 1..Len(t) : t[i] = "{" /\ At(t, i + 1) \in DigitCh /\ RunEnd(t, i + 1, DigitCh) <= i + 3}}
 SetMax(S) == IF S = {} THEN 0 ELSE CHOOSE m \in S : \A x \in S : x <= m
 GenNeed(t) == SetMax(GenIdx(t) \cup {GenAutos(t)})
-GenNames(t) == { <<t[j + 1]>> : j \in {i \in 1..Len(t) : t[i] = "{" /\ At(t, i + 1) \in Letters} }
+\* every non-empty field name as written (up to the first special character), digits and edge forms included:
+\* a keyword argument spelled exactly like the field name is tried for each of them
+NameEndAt(t, j) == FirstIn(t, j + 1, {".", "[", "!", ":", "}", "{"})
+GenNames(t) == { SubSeq(t, j + 1, NameEndAt(t, j) - 1) :
+                   j \in {i \in 1..Len(t) : t[i] = "{" /\ NameEndAt(t, i) > i + 1} }
 
 XInit == case = Blank /\ stage = "item" /\ ntok = 0 /\ kwi = 1
 
@@ -131,6 +138,25 @@ SpecsBad == { <<":", "d", "d">>, <<":", ".">> }
 SpecsAll == { None, <<":">> } \cup SpecsSimple \cup SpecsNested \cup SpecsBad
 KwABW == << <<"a">>, <<"b">>, <<"w">> >>
 
+\* lexical edge forms of a field name.  CPython (get_integer): positional iff every character is a Unicode
+\* decimal digit; the value must fit Py_ssize_t
+Nines20 == [j \in 1..20 |-> "9"]                                   \* 99999999999999999999: too many digits
+SsizeMax == <<"9","2","2","3","3","7","2","0","3","6","8","5","4","7","7","5","8","0","7">>   \* 2^63-1: an index
+SsizeMaxP1 == <<"9","2","2","3","3","7","2","0","3","6","8","5","4","7","7","5","8","0","8">> \* 2^63: too many
+EdgeNames == { <<"0", "0">>, <<"0", "1">>, <<" ", "0">>, <<"0", " ">>, <<" ", "0", " ">>, <<"+", "0">>, <<"-", "0">>,
+               <<"-", "1">>, <<"0", "_", "0">>, <<"1", "_", "0">>, <<"0", "x", "0">>, <<"<sup2>">>, <<"<ar0>">>,
+               <<"a", " ", "b">>, Nines20 }
+EdgeNamesAll == EdgeNames \cup { SsizeMax, SsizeMaxP1, <<"+", "1">>, <<"1", "<ar0>">>, <<"<sup2>", "0">> }
+ADot0 == <<".", "0">>                                              \* "{0.0}": attribute access on argument 0
+KwEdge == << <<"a">>, <<"b">>, <<"w">>, <<"0">>, <<"0", "0">>, <<"0", "1">>, <<" ", "0">>, <<"0", " ">>, <<" ", "0", " ">>,
+             <<"+", "0">>, <<"-", "0">>, <<"-", "1">>, <<"0", "_", "0">>, <<"1", "_", "0">>, <<"0", "x", "0">>, <<"<sup2>">>,
+             <<"<ar0>">>, <<"a", " ", "b">>, <<"+", "1">>, <<"1", "<ar0>">>, <<"<sup2>", "0">> >>
+\* quick, exhaustively replayed: every edge form alone and followed by a plain "{0}" / "{}" field
+N1XLits   == << {}, {} >>
+N1XNames  == << EdgeNames \cup { <<"0">> }, { None, <<"0">> } >>
+N1XChains == << { None, ADot0, AReal }, { None } >>
+N1XPlain  == << { None }, { None } >>
+
 \* quick, exhaustively replayed: one field
 Q1XLits   == << XLitsAll >>
 Q1XNames  == << { None, <<"0">>, <<"1">>, <<"a">> } >>
@@ -151,8 +177,8 @@ Q2XPos    == {"i1"}
 
 \* all components: one field over the complete menus
 F1XLits   == << XLitsAll >>
-F1XNames  == << NamesAll >>
-F1XChains == << ChainsAll >>
+F1XNames  == << NamesAll \cup EdgeNamesAll >>
+F1XChains == << ChainsAll \cup { ADot0, <<"[">> \o Nines20 \o <<"]">> } >>
 F1XConvs  == << ConvsAll >>
 F1XSpecs  == << SpecsAll >>
 F1XPos    == {"i1", "sx", "sd", "l1", "da", "none"}
@@ -160,8 +186,8 @@ F1XKw     == {"i1", "sd", "da"}
 
 \* two fields over the complete menus (simulation) / over reduced menus (thorough, exhaustive)
 F2XLits   == << XLitsAll, XLitsAll >>
-F2XNames  == << NamesAll, NamesAll >>
-F2XChains == << ChainsAll, ChainsAll >>
+F2XNames  == << F1XNames[1], F1XNames[1] >>
+F2XChains == << F1XChains[1], F1XChains[1] >>
 F2XConvs  == << ConvsAll, ConvsAll >>
 F2XSpecs  == << SpecsAll, SpecsAll >>
 T2XChains == << { None, AReal, AIdx0 }, { None, AKeyA } >>
